@@ -22,6 +22,7 @@ package main
 //   - sections nobody updates stay as they were, served and reloaded.
 
 import (
+	"encoding/json"
 	"fmt"
 	"sort"
 	"strings"
@@ -44,6 +45,7 @@ type cop struct {
 	Name string      `json:"op"`
 	Desc interface{} `json:"request"`
 	sec  string      // section it updates; "" for a reload participant
+	kind string      // whole-section | label-rmw | store-limit-rmw (how the update is computed)
 	st   *step
 	// apply is the requested change as a function on the normalised section value (decoded JSON).
 	apply func(v interface{}) interface{}
@@ -97,14 +99,17 @@ func labelModel(set bool, typ, item string) func(interface{}) interface{} {
 // copOf builds the participant for a direct setter call; nil when the call has no exact model.
 func (e *env) copOf(c *call) *cop {
 	p := &cop{Name: c.Setter, Desc: c, sec: setterSection[c.Setter], st: e.directStep(c)}
+	p.kind = "whole-section"
 	if sec, want, ok := c.requested(); ok {
 		p.apply = constModel(normSection(sec, want))
 		return p
 	}
 	switch c.Setter {
 	case "SetLabelProperty":
+		p.kind = "label-rmw"
 		p.apply = labelModel(true, c.typ, c.key+"="+c.val)
 	case "DeleteLabelProperty":
+		p.kind = "label-rmw"
 		p.apply = labelModel(false, c.typ, c.key+"="+c.val)
 	case "SetClusterVersion":
 		want, ok := parseVersion(c.ver)
@@ -305,9 +310,17 @@ func (e *env) concJudge(family string, before secs, ops []*cop, order []int, mod
 		}
 	}
 	relation := "different-sections"
-	for _, n := range secsSeen {
+	for sec, n := range secsSeen {
 		if n > 1 {
-			relation = "same-section"
+			// same section: the kinds of the updates that meet there are part of the history's identity
+			var kinds []string
+			for _, o := range ops {
+				if o.sec == sec {
+					kinds = append(kinds, o.kind)
+				}
+			}
+			sort.Strings(kinds)
+			relation = "same-section:" + strings.Join(kinds, "||")
 		}
 	}
 	withReload := false
@@ -323,6 +336,12 @@ func (e *env) concJudge(family string, before secs, ops []*cop, order []int, mod
 	r.Distinct(fmt.Sprintf("%s|%s|%v|%s|%s@%d|%s", family, strings.Join(names, "||"), order, res.traceKey, modeNames[mode], faultAt, shape))
 	r.Count(family+"_"+faultClass, 1)
 	names = append(names, "("+faultClass+")")
+	// key suffix: workload family and the write failure that was really injected (which released write)
+	faultKey := "no-fault"
+	if res.injected > 0 {
+		faultKey = fmt.Sprintf("%s@write%d", modeNames[mode], faultAt)
+	}
+	ctx := relation + ":" + family + ":" + faultKey
 	if res.injected > 0 {
 		r.Count("faults_injected_in_race_"+modeNames[mode], 1)
 	}
@@ -337,8 +356,19 @@ func (e *env) concJudge(family string, before secs, ops []*cop, order []int, mod
 		for _, t := range res.trace {
 			released = append(released, ops[order[t.Worker]].Name)
 		}
+		var oneLine []string
+		for i, o := range ops {
+			oc := "refused"
+			if res.outcomes[i].Accepted {
+				oc = "accepted"
+			} else if res.outcomes[i].Faulted != "" {
+				oc = "refused(" + res.outcomes[i].Faulted + ")"
+			}
+			oneLine = append(oneLine, fmt.Sprintf("%s %s -> %s", o.Name, o.brief(), oc))
+		}
 		w := map[string]interface{}{
-			"family": family, "phase": e.phase, "case": e.caseNo, "seed": r.Seed, "shard": r.Shard,
+			"summary": fmt.Sprintf("start %v; config writes released %v; failure %s; %s", startOrder, released, faultKey, strings.Join(oneLine, " | ")),
+			"family":  family, "phase": e.phase, "case": e.caseNo, "seed": r.Seed, "shard": r.Shard,
 			"participants": ops, "start_order": startOrder, "config_writes_released_in_order": released,
 			"write_failure": fmt.Sprintf("%s at released config write #%d", modeNames[mode], faultAt), "outcomes": res.outcomes,
 		}
@@ -356,12 +386,12 @@ func (e *env) concJudge(family string, before secs, ops []*cop, order []int, mod
 	}
 	for i, oc := range res.outcomes {
 		if oc.Panicked != "" {
-			e.violate(keyOf("concurrent-updates", "panic", ops[i].Name), fmt.Sprintf("%s panicked while overlapping with %v: %s", ops[i].Name, names, oc.Panicked), wit(nil))
+			e.violate(keyOf("concurrent-updates", "panic", ops[i].Name, family), fmt.Sprintf("%s panicked while overlapping with %v: %s", ops[i].Name, names, oc.Panicked), wit(nil))
 			return
 		}
 	}
 	if res.relErr != nil {
-		e.violate(keyOf("concurrent-updates", "reload-fails", relation), fmt.Sprintf("after overlapping %v a fresh PersistOptions cannot reload: %v", names, res.relErr), wit(nil))
+		e.violate(keyOf("concurrent-updates", "reload-fails", ctx), fmt.Sprintf("after overlapping %v a fresh PersistOptions cannot reload: %v", names, res.relErr), wit(nil))
 		return
 	}
 	nb, na, nr := normalised(before), normalised(res.after), normalised(res.reloaded)
@@ -390,12 +420,12 @@ func (e *env) concJudge(family string, before secs, ops []*cop, order []int, mod
 		}
 		if len(all) == 0 {
 			if (withReload && nb[sec] != na[sec]) || (!withReload && eb[sec] != ea[sec]) {
-				e.violate(keyOf("concurrent-updates", "untouched-section-changed", relation),
+				e.violate(keyOf("concurrent-updates", "untouched-section-changed", ctx),
 					fmt.Sprintf("overlapping %v (outcomes %s) changed the served %s section that none of them updates: %s", names, shape, sec, fieldDiff(eb[sec], ea[sec])),
 					wit(map[string]interface{}{"section": sec, "served_before": before[sec], "served_after": res.after[sec]}))
 			}
 			if nb[sec] != nr[sec] {
-				e.violate(keyOf("concurrent-updates", "untouched-section-reloads-differently", relation),
+				e.violate(keyOf("concurrent-updates", "untouched-section-reloads-differently", ctx),
 					fmt.Sprintf("after overlapping %v (outcomes %s) the %s section, which none of them updates, reloads differently: %s", names, shape, sec, fieldDiff(nb[sec], nr[sec])),
 					wit(map[string]interface{}{"section": sec}))
 			}
@@ -410,7 +440,7 @@ func (e *env) concJudge(family string, before secs, ops []*cop, order []int, mod
 				if len(acc) > 0 {
 					clause, what = "served-differs-from-every-serial-order", "an accepted update is missing from (or a refused one present in) what is served"
 				}
-				e.violate(keyOf("concurrent-updates", clause, relation),
+				e.violate(keyOf("concurrent-updates", clause, ctx),
 					fmt.Sprintf("overlapping %v, outcomes %s (a accepted, r rejected, f failed write): the served %s section is not what any order of the accepted updates gives - %s. served: %s; allowed: %v",
 						names, shape, sec, what, clip(na[sec]), keysOf(servedAllowed)),
 					wit(map[string]interface{}{"section": sec, "served_before": before[sec], "served_after": res.after[sec], "reloaded_after": res.reloaded[sec], "allowed_served": keysOf(servedAllowed)}))
@@ -418,18 +448,23 @@ func (e *env) concJudge(family string, before secs, ops []*cop, order []int, mod
 			}
 		} else {
 			r.Count("served_clause_skipped_accepted_across_reload", 1)
+			if !servedAllowed[na[sec]] {
+				// the reload wiped the accepted update from memory: stored, but not served until
+				// the next leader change - observed, the statement does not speak about it
+				r.Count("accepted_update_not_served_after_reload_observed", 1)
+			}
 		}
 		reloadAllowed := foldAll(nb[sec], acc, failed)
 		r.Count("serial_order_checks_reloaded", 1)
 		if !reloadAllowed[nr[sec]] {
-			e.violate(keyOf("concurrent-updates", "accepted-change-not-reloaded", relation),
+			e.violate(keyOf("concurrent-updates", "accepted-change-not-reloaded", ctx),
 				fmt.Sprintf("overlapping %v, outcomes %s (a accepted, r rejected, f failed write): the reloaded %s section is not what any order of the accepted updates (plus any of the failed ones) gives. reloaded: %s; allowed: %v",
 					names, shape, sec, clip(nr[sec]), keysOf(reloadAllowed)),
 				wit(map[string]interface{}{"section": sec, "served_before": before[sec], "served_after": res.after[sec], "reloaded_after": res.reloaded[sec], "allowed_reloaded": keysOf(reloadAllowed)}))
 			continue
 		}
 		if !anyFault && servedJudged && na[sec] != nr[sec] {
-			e.violate(keyOf("concurrent-updates", "reload-differs-from-served", relation),
+			e.violate(keyOf("concurrent-updates", "reload-differs-from-served", ctx),
 				fmt.Sprintf("overlapping %v, all accepted or rejected without any write failure: the %s section reloads differently from what is served (served -> reloaded): %s", names, sec, fieldDiff(na[sec], nr[sec])),
 				wit(map[string]interface{}{"section": sec, "served_after": res.after[sec], "reloaded_after": res.reloaded[sec]}))
 		}
@@ -475,6 +510,29 @@ func (e *env) grid(family string, ops []*cop, orders [][]int, restore func(), sa
 		}
 	}
 	restore()
+}
+
+// brief is a short rendering of the request for one-line witnesses.
+func (o *cop) brief() string {
+	switch d := o.Desc.(type) {
+	case *call:
+		if len(d.Muts) > 0 {
+			return "{" + strings.Join(d.Muts, ",") + "}"
+		}
+		if len(d.Args) > 70 {
+			return "(" + d.Args[:70] + "...)"
+		}
+		return "(" + d.Args + ")"
+	case *post:
+		b, _ := json.Marshal(d.Body)
+		return string(b)
+	}
+	return ""
+}
+
+// noCop takes the place of the second update in the "one update in flight, nothing else" runs.
+func noCop() *cop {
+	return &cop{Name: "-", Desc: "no second update", st: &step{Site: "-", do: func() (bool, string) { return true, "" }}}
 }
 
 // reloadCop is the participant that reloads the serving options from storage.
